@@ -245,8 +245,19 @@ func ruleEpcShared(c *Ctx) {
 				ast.Inspect(fd.Body, func(n ast.Node) bool {
 					if as, ok := n.(*ast.AssignStmt); ok {
 						for i, l := range as.Lhs {
-							if l == ast.Expr(sel) {
-								whole = true
+							if l == ast.Expr(sel) && i < len(as.Rhs) {
+								// a whole-field assignment is a replacement only when the new value does not derive from
+								// the old one: `f = f[:0]` and `f = append(f, x)` keep (may keep) the shared backing array
+								selfDerived := false
+								ast.Inspect(as.Rhs[i], func(k ast.Node) bool {
+									if rs, ok := k.(*ast.SelectorExpr); ok && rs.Sel.Name == "EffectiveBalances" {
+										selfDerived = true
+									}
+									return true
+								})
+								if !selfDerived {
+									whole = true
+								}
 							}
 							if ls, ok := ast.Unparen(l).(*ast.SelectorExpr); ok && ls.Sel.Name == "EffectiveBalances" && i < len(as.Rhs) {
 								if call, ok := ast.Unparen(as.Rhs[i]).(*ast.CallExpr); ok {
